@@ -751,10 +751,29 @@ package gojq
 //@   requires 0 <= i && i < len(items) && 0 <= j && j < len(items) && items[i] != nil && items[j] != nil
 //@   ensures b == (cmpv(items[i].key, items[j].key) < 0)
 
+// ASSUMED contract of sort.SliceStable for this call (the less function passed is sortItems$1, verified
+// above to be exactly cmpv(key_i, key_j) < 0, a strict weak order by the proved order laws): the slice is
+// rearranged in place into a permutation of itself (sperm) in which no later key is smaller than an
+// earlier one. (Stability is part of the assumption and is not used.)
+//@ spec func sperm(x any, i int) int
+//@ external sort.SliceStable@sortItems(x, less)
+//@   modifies GH_sorted, elemsany(x)
+//@   ensures sortedflag(x) == 2
+//@   ensures forall i :: {x.([]*sortItem)[i]} 0 <= i && i < len(x.([]*sortItem)) ==> 0 <= sperm(x, i) && sperm(x, i) < len(x.([]*sortItem)) && x.([]*sortItem)[i] == old(x.([]*sortItem)[sperm(x, i)])
+//@   ensures forall i, j :: {x.([]*sortItem)[i], x.([]*sortItem)[j]} 0 <= i && i < j && j < len(x.([]*sortItem)) ==> cmpv(x.([]*sortItem)[j].key, x.([]*sortItem)[i].key) >= 0
+
 //@ func sortItems(name string, v, x any) (items []*sortItem, err error)
 //@   property C11
+//@   using cmpv_range
 //@   modifies *
-//@   ensures err == nil ==> sortedflag(items) == 2 && (v is []any) && len(items) == len(v.([]any))
+//@   loop 1 invariant -1 <= rangeindex && rangeindex < len(vs) && len(items) == len(vs) && len(xs) == len(vs)
+//@   loop 1 invariant forall k :: {items[k]} 0 <= k && k <= rangeindex ==> items[k] != nil && fresh(items[k]) && items[k] <= alloc() && items[k].value == vs[k] && items[k].key == xs[k]
+//@   ensures err == nil ==> sortedflag(items) == 2 && (v is []any) && (x is []any) && len(items) == len(v.([]any))
+//@   ensures err == nil ==> forall k :: {items[k]} 0 <= k && k < len(items) ==> items[k] != nil
+// ordered: no later key is smaller than an earlier one
+//@   ensures err == nil ==> forall i, j :: {items[i], items[j]} 0 <= i && i < j && j < len(items) ==> cmpv(items[j].key, items[i].key) >= 0
+// every item pairs an input value with its key
+//@   ensures err == nil ==> forall k :: {items[k]} 0 <= k && k < len(items) ==> 0 <= sperm(items, k) && sperm(items, k) < len(items) && items[k].value == v.([]any)[sperm(items, k)] && items[k].key == x.([]any)[sperm(items, k)]
 
 // indices: only positions where the whole needle fits.
 //@ func indices(vs, xs []any) (r any)
